@@ -6,6 +6,8 @@ __maintainer__ = "Julián Arenas-Guerrero"
 __email__ = "arenas.guerrero.julian@outlook.com"
 
 
+import pandas as pd
+
 from .built_in_functions import bif_dict
 from ..utils import get_fnml_execution, remove_null_values_from_dataframe, get_references_in_template
 from ..constants import RML_EXECUTION, RML_TEMPLATE, RML_CONSTANT
@@ -109,7 +111,8 @@ def execute_fnml(data, fnml_df, fnml_execution, config):
             exec_params[k] = v[i]
         exec_res.append(function(**exec_params))
 
-    data[fnml_execution] = exec_res
+    # keep the column of results an object column also when there are no rows (an empty list would become float64)
+    data[fnml_execution] = pd.Series(exec_res, index=data.index, dtype=object)
 
     # TODO: this can be avoided for many built-in functions and also UDFs with a special parameter
     #if function_id in ['http://users.ugent.be/~bjdmeest/function/grel.ttl#string_split']:
